@@ -293,7 +293,8 @@ type ppBase struct{ before, after *[]int }
 type instRec struct {
 	pid  *int
 	inst *[]int
-	earl *[]int
+	earl *[]int // early-reference callbacks on zz-probe
+	ear2 *[]int // ... on zz-probe2 (which of the two is handed out early depends on the creation order, which nothing promises)
 }
 
 func (r *instRec) PostProcessBeforeInstantiation(m *component_definition.Meta, n string) (any, error) {
@@ -308,6 +309,9 @@ func (r *instRec) PostProcessAfterInstantiation(c any, n string) (bool, error) {
 func (r *instRec) GetEarlyBeanReference(c any, n string) (any, error) {
 	if n == "zz-probe" && r.earl != nil {
 		*r.earl = append(*r.earl, *r.pid)
+	}
+	if n == "zz-probe2" && r.ear2 != nil {
+		*r.ear2 = append(*r.ear2, *r.pid)
 	}
 	return c, nil
 }
@@ -379,13 +383,13 @@ func TestPostProcessors(t *testing.T) {
 	kit.Rec.Rule(rule)
 	rapid.Check(t, func(t *rapid.T) {
 		specs := genSpecs(t, 10)
-		var before, after, inst, earl []int
+		var before, after, inst, earl, ear2 []int
 		comps := make([]any, len(specs))
 		lazies := 0
 		for i, s := range specs {
 			pi := pinfo{id: i, class: s.Class, ord: s.Ord, log: &before, name: fmt.Sprintf("pp%02d", i)}
 			id := i
-			ir := instRec{pid: &id, inst: &inst, earl: &earl}
+			ir := instRec{pid: &id, inst: &inst, earl: &earl, ear2: &ear2}
 			lazy := rapid.IntRange(0, 3).Draw(t, "lazy") == 0
 			if lazy {
 				lazies++
@@ -420,9 +424,17 @@ func TestPostProcessors(t *testing.T) {
 		if err := checkSeq(specs, inst); err != nil {
 			t.Fatalf("after-instantiation sequence on the probe: %v", err)
 		}
-		// zz-probe is created first and handed to zz-probe2 as an early reference: that callback chain too
-		if err := checkSeq(specs, earl); err != nil {
-			t.Fatalf("early-reference callback sequence on the probe (%d lazy post-processors): %v", lazies, err)
+		// whichever of the two is created first is handed to the other as an early reference: that callback chain too
+		if len(earl) == 0 && len(ear2) == 0 && len(specs) > 0 {
+			t.Fatalf("neither probe of the two-cycle was handed out as an early reference, yet the start succeeded")
+		}
+		for _, e := range [][]int{earl, ear2} {
+			if len(e) == 0 {
+				continue
+			}
+			if err := checkSeq(specs, e); err != nil {
+				t.Fatalf("early-reference callback sequence on a probe (%d lazy post-processors): %v", lazies, err)
+			}
 		}
 		d, nt, labels := describe("postprocessors", specs)
 		kit.Rec.Case(d, nt, labels...)
